@@ -5,6 +5,8 @@ From NSQV Require Import gen.CoreShape proofs.CoreSrcDefs.
 Import ListNotations.
 Open Scope string_scope.
 
+Lemma src_Topic_messagePump : shape_Topic_messagePump = expect_Topic_messagePump.
+Proof. reflexivity. Qed.
 Lemma src_Channel_flush : shape_Channel_flush = expect_Channel_flush.
 Proof. reflexivity. Qed.
 Lemma src_Channel_exit : shape_Channel_exit = expect_Channel_exit.
@@ -29,4 +31,4 @@ Lemma src_Topic_PutMessages : shape_Topic_PutMessages = expect_Topic_PutMessages
 Proof. reflexivity. Qed.
 
 Lemma src_C05 : src_facts_C05.
-Proof. unfold src_facts_C05. repeat split; first [exact src_Channel_flush | exact src_Channel_exit | exact src_Topic_flush | exact src_Topic_exit | exact src_NSQD_Exit | exact src_Channel_RequeueMessage | exact src_Channel_processInFlightQueue | exact src_Channel_processDeferredQueue | exact src_Channel_PutMessage | exact src_Topic_PutMessage | exact src_Topic_PutMessages]. Qed.
+Proof. unfold src_facts_C05. repeat split; first [exact src_Topic_messagePump | exact src_Channel_flush | exact src_Channel_exit | exact src_Topic_flush | exact src_Topic_exit | exact src_NSQD_Exit | exact src_Channel_RequeueMessage | exact src_Channel_processInFlightQueue | exact src_Channel_processDeferredQueue | exact src_Channel_PutMessage | exact src_Topic_PutMessage | exact src_Topic_PutMessages]. Qed.
